@@ -159,11 +159,14 @@ PROPERTIES = {
                       "checked), cost (constant part + trapezoid/2 with the cumulative fan-out), idle time over sorted copies, "
                       "flow time / weighted completion / weighted start. Also: no python truncation before scaling, distinct "
                       "default names, the value stored in the solution is the model value of that indicator's variable under "
-                      "that indicator's name, IndicatorTarget/Bounds.",
+                      "that indicator's name, IndicatorTarget/Bounds. Cost Function classes (function.py): the callable "
+                      "each class installs is applied to a symbolic argument and compared with its documented form "
+                      "(constant, slope*x+intercept; the polynomial by its loop invariant: index/power pairing, start values, "
+                      "range, skip test), and Function.__call__ returns that callable's value for its own argument.",
         "level_note": "User expressions and GeneralFunction costs are opaque terms (only 'emitted as written' is decided). "
                       "ObjectiveMinimizeFlowtimeSingleResource's min/max encoding is not specified by the docs and is only "
                       "covered by the inertness analysis (C06). Integer division is z3's. Trusted: z3, pydantic.",
-        "explanation": "Static analysis of indicator.py / objective.py / indicator_constraint.py / util.py / solver.py: "
+        "explanation": "Static analysis of indicator.py / objective.py / function.py / indicator_constraint.py / util.py / solver.py: "
                        "canonical-form comparison of each defining expression with its specification row.",
     },
     "C05": {
